@@ -241,35 +241,101 @@ def disconnect_handling(ctx):
         raise AnchorMissing('ConnectionClosed handlers in frappy/io.py not found')
 
 
+def _buffers(f):
+    """source texts of the expressions holding the receive buffer in a reader: self._rxbuffer and locals bound to it"""
+    names = {'self._rxbuffer'}
+    for n in body_walk(f.node):
+        if isinstance(n, ast.Assign) and src(n.value) in names:
+            names |= {t.id for t in n.targets if isinstance(t, ast.Name)}
+    return names
+
+
 @rule('C16.R5', min_instances=4)
 def framing(ctx):
-    """readline / readbytes work on the single _rxbuffer and keep the remainder"""
+    """readline / readbytes: (a) no received byte is dropped - what recv() delivered ends up in the persistent buffer, in the
+    returned line or is shown to be empty, on every way out of the function (dataflow over the CFG, also for a reader that
+    assembles the line in a local); (b) the terminator search finds the FIRST terminator and finds it when it straddles two
+    chunks: split(eol, 1) / partition(eol) on the whole buffer, or find(eol, start) with a start that steps back by
+    len(eol) - 1; (c) readbytes hands out the first n bytes and keeps the rest"""
     m = ctx.m
     rl = m.method(ASYN, 'readline', inherited=False)
-    ctx.analysed(rl)
-    splits = [c for c in calls_in(rl.node) if call_attr(c) == 'split' and src(c.func.value) == 'self._rxbuffer']
-    ok = any(len(c.args) == 2 and isinstance(c.args[1], ast.Constant) and c.args[1].value == 1 for c in splits)
-    ctx.check(ok, f'{rl.qualname}:split at first end_of_line', rl.node, 'self._rxbuffer.split(eol, 1)',
-              'the buffer is not split at the first end_of_line only', rl)
+    rb = m.method(ASYN, 'readbytes', inherited=False)
+    for f in (rl, rb):
+        ctx.analysed(f)
+        cfg = CFG(f.node, m, f.module)
+        lost = received_bytes_lost(cfg, f.node, 'self._rxbuffer', lambda c: call_attr(c) == 'recv')
+        if not any(call_attr(c) == 'recv' for c in calls_in(f.node)):
+            raise AnchorMissing(f'recv() call not found in AsynConn.{f.name}')
+        for st, names in lost:
+            ctx.bad(f'{f.qualname}:appends received data', st if st is not None else f.node,
+                    f'the function is left through `{src(st)[:70] if st is not None else "its end"}` while {names} still hold(s) received bytes that were neither '
+                    'appended to self._rxbuffer nor returned: the beginning of a reply that arrives in two segments is lost, the rest is taken for a line of its own', f)
+        if not lost:
+            ctx.ok(f'{f.qualname}:appends received data', f.node, 'every received byte reaches self._rxbuffer or the returned value on every way out', f)
+    bufs = _buffers(rl)
+    eolnames = {'self.end_of_line'} | {t.id for n in body_walk(rl.node) if isinstance(n, ast.Assign) and src(n.value) == 'self.end_of_line'
+                                       for t in n.targets if isinstance(t, ast.Name)}
+    searches = [c for c in calls_in(rl.node) if call_attr(c) in ('split', 'partition', 'find', 'index') and src(c.func.value) in bufs
+                and c.args and src(c.args[0]) in eolnames]
+    if not searches:
+        ctx.undecided(f'{rl.qualname}:split at first end_of_line', rl.node, 'terminator search not recognised', rl)
+    for c in searches:
+        kind = call_attr(c)
+        if kind == 'split':
+            ok = len(c.args) == 2 and isinstance(c.args[1], ast.Constant) and c.args[1].value == 1
+            ctx.check(ok, f'{rl.qualname}:split at first end_of_line', c, 'split(eol, 1)',
+                      f'`{src(c)}` splits at every end_of_line: with two lines in the buffer the unpacking fails / the second line is lost', rl)
+        elif kind == 'partition':
+            ctx.ok(f'{rl.qualname}:split at first end_of_line', c, 'partition(eol)', rl)
+        elif len(c.args) == 1:
+            ctx.ok(f'{rl.qualname}:split at first end_of_line', c, f'{kind}(eol) over the whole buffer', rl)
+        else:
+            start = resolved(c.args[1], rl.node)
+            t = src(start)
+            # all bindings of the start variable (it is re-bound in the loop)
+            cands = [t]
+            if isinstance(c.args[1], ast.Name):
+                cands = [src(v) for v, st, how in local_assigns(rl.node, c.args[1].id) if v is not None]
+            steps_back = [x for x in cands if 'len(' in x and any(f'len({e})' in x for e in eolnames) and '-' in x]
+            plain = [x for x in cands if x.startswith('len(') and x.endswith(')') and x[4:-1] in bufs]
+            if plain:
+                ctx.bad(f'{rl.qualname}:split at first end_of_line', c, f'`{src(c)}` resumes the search at `{plain[0]}`, the full length already scanned: a '
+                        'terminator of more than one byte (\'\\r\\n\') that straddles two chunks is never found - the reply runs into the time-out or is merged with the next line', rl)
+            elif steps_back or all(x in ('0',) for x in cands):
+                ctx.ok(f'{rl.qualname}:split at first end_of_line', c, f'search resumes at {cands}', rl)
+            else:
+                ctx.undecided(f'{rl.qualname}:split at first end_of_line', c, f'start offset {cands} not decided', rl)
+    # the decision "a complete line is there" looks at the whole buffer, not at the chunk that was just received
+    chunks = {t.id for n in body_walk(rl.node) if isinstance(n, ast.Assign) and isinstance(n.value, ast.Call) and call_attr(n.value) == 'recv'
+              for t in n.targets if isinstance(t, ast.Name)}
+    for t in [x for n in body_walk(rl.node) if isinstance(n, (ast.If, ast.While)) for x in ast.walk(n.test)]:
+        hit = None
+        if isinstance(t, ast.Compare) and len(t.ops) == 1 and isinstance(t.ops[0], (ast.In, ast.NotIn)) and src(t.left) in eolnames \
+                and isinstance(t.comparators[0], ast.Name) and t.comparators[0].id in chunks:
+            hit = t
+        if isinstance(t, ast.Call) and call_attr(t) in ('find', 'index', 'count', 'endswith') and isinstance(t.func.value, ast.Name) and t.func.value.id in chunks \
+                and t.args and src(t.args[0]) in eolnames:
+            hit = t
+        if hit is not None:
+            ctx.bad(f'{rl.qualname}:split at first end_of_line', hit, f'`{src(hit)}` looks for the terminator in the chunk that was just received, not in the buffer: '
+                    'a terminator of more than one byte that straddles two chunks is never seen - the complete reply sits in the buffer until the time-out', rl)
+    # the remainder after the line stays in the persistent buffer: some assignment to self._rxbuffer takes its value from the
+    # split / partition result or from a slice behind the terminator
     keep = False
     for n in body_walk(rl.node):
-        if isinstance(n, ast.Assign) and isinstance(n.targets[0], ast.Tuple) and len(n.targets[0].elts) == 2 and src(n.targets[0].elts[1]) == 'self._rxbuffer':
-            v = n.value
-            if isinstance(v, ast.Name) and any(isinstance(o, ast.Call) and call_attr(o) == 'split' for o in origins(v, rl.node)):
+        if isinstance(n, ast.Assign):
+            tg = n.targets[0]
+            if isinstance(tg, ast.Tuple) and any(src(e) == 'self._rxbuffer' for e in tg.elts):
+                i = [src(e) for e in tg.elts].index('self._rxbuffer')
+                rhs = n.value.elts[i] if isinstance(n.value, ast.Tuple) and len(n.value.elts) == len(tg.elts) else n.value
+                keep = keep or not isinstance(rhs, ast.Constant)
+            elif src(tg) == 'self._rxbuffer' and isinstance(n.value, (ast.Subscript, ast.Name)) and src(n.value) != "b''":
                 keep = True
-            if isinstance(v, ast.Tuple) and len(v.elts) == 2 and isinstance(v.elts[1], ast.Subscript) and src(v.elts[1].slice) == '1':
-                keep = True
-    ctx.check(keep, f'{rl.qualname}:remainder kept', rl.node, 'line, self._rxbuffer = splitted',
+    ctx.check(keep, f'{rl.qualname}:remainder kept', rl.node, 'the part after the line is stored back into self._rxbuffer',
               'the remainder after the line is not stored back into the receive buffer', rl)
-    rb = m.method(ASYN, 'readbytes', inherited=False)
-    ctx.analysed(rb)
-    for f in (rl, rb):
-        app = any(isinstance(n, ast.AugAssign) and src(n.target) == 'self._rxbuffer' and isinstance(n.op, ast.Add) for n in body_walk(f.node))
-        ctx.check(app, f'{f.qualname}:appends received data', f.node, 'self._rxbuffer += data',
-                  'received data is not appended to the receive buffer', f)
     take = [n for n in body_walk(rb.node) if isinstance(n, ast.Assign) and src(n.targets[0]) == 'self._rxbuffer'
             and isinstance(n.value, ast.Subscript) and isinstance(n.value.slice, ast.Slice)]
-    ok = any(src(n.value.value) == 'self._rxbuffer' and n.value.slice.lower is not None and n.value.slice.upper is None for n in take)
+    ok = any(src(n.value.value) in _buffers(rb) and n.value.slice.lower is not None and n.value.slice.upper is None for n in take)
     ctx.check(ok, f'{rb.qualname}:remainder kept', rb.node, 'self._rxbuffer = self._rxbuffer[nbytes:]',
               'the bytes after the requested count are not kept in the buffer', rb)
 
